@@ -68,7 +68,7 @@ func (k Keeper) RecvPacket(goCtx context.Context, msg *packettypes.MsgRecvPacket
 
 	if packet.GetDstChain() == k.ClientKeeper.GetChainName(cctx) {
 		// call packet onRecvPacket
-		res, err := k.PacketKeeper.CallPacket(ctx, "onRecvPacket", packet)
+		res, err := k.PacketKeeper.CallPacket(cctx, "onRecvPacket", packet)
 		if err != nil {
 			// Write ErrAck
 			errAckBz, err := packettypes.NewAcknowledgement(1, []byte{}, "receive packet callback failed", relayer, packet.FeeOption).ABIPack()
@@ -84,6 +84,12 @@ func (k Keeper) RecvPacket(goCtx context.Context, msg *packettypes.MsgRecvPacket
 		var result packettypes.Result
 		if err := packetcontract.PacketContract.ABI.UnpackIntoInterface(&result, "onRecvPacket", res.Ret); err != nil {
 			return nil, sdkerrors.Wrapf(packettypes.ErrABIPack, "recv packet failed, decode result err: %s", err)
+		}
+		if result.Code == 0 {
+			// keep the callback's effects only if it reported success: a failure reported in the
+			// result code (without a revert) is answered with an error acknowledgement
+			write()
+			ctx.EventManager().EmitEvents(cctx.EventManager().Events())
 		}
 		ackBz, err := packettypes.NewAcknowledgement(result.Code, result.Result, result.Message, relayer, packet.FeeOption).ABIPack()
 		if err != nil {
@@ -103,9 +109,6 @@ func (k Keeper) RecvPacket(goCtx context.Context, msg *packettypes.MsgRecvPacket
 		}
 		return &packettypes.MsgRecvPacketResponse{}, nil
 	}
-
-	write()
-	ctx.EventManager().EmitEvents(cctx.EventManager().Events())
 
 	return &packettypes.MsgRecvPacketResponse{}, nil
 }
